@@ -36,8 +36,68 @@ import (
 type c19Pol struct {
 	min, max, base, rate uint64
 	delta                uint16
-	dis                  bool
 	ib, ir               int32
+
+	// ver is the gossip version of the channel update the policy comes from
+	// (0/1: v1, 2: v2); dflags are the raw disable bits: v1 bit 0 = the
+	// ChanUpdateDisabled channel flag, v2 = ChanUpdateDisableFlags (incoming 1,
+	// outgoing 2).
+	ver    uint8
+	dflags uint8
+}
+
+// orig builds the full graph policy (models.ChannelEdgePolicy) this policy
+// stands for; the pathfinding view is derived from it with the real
+// models.NewCachedPolicy.
+func (p *c19Pol) orig(chanID uint64, node1 bool) *models.ChannelEdgePolicy {
+	pol := &models.ChannelEdgePolicy{
+		Version:                   lnwire.GossipVersion1,
+		ChannelID:                 chanID,
+		TimeLockDelta:             p.delta,
+		MinHTLC:                   lnwire.MilliSatoshi(p.min),
+		MaxHTLC:                   lnwire.MilliSatoshi(p.max),
+		FeeBaseMSat:               lnwire.MilliSatoshi(p.base),
+		FeeProportionalMillionths: lnwire.MilliSatoshi(p.rate),
+		InboundFee: fn.Some(lnwire.Fee{
+			BaseFee: p.ib, FeeRate: p.ir,
+		}),
+	}
+	if p.ver == 2 {
+		pol.Version = lnwire.GossipVersion2
+		pol.SecondPeer = !node1
+		pol.DisableFlags = lnwire.ChanUpdateDisableFlags(p.dflags)
+
+		return pol
+	}
+	if p.max != 0 {
+		pol.MessageFlags |= lnwire.ChanUpdateRequiredMaxHtlc
+	}
+	if !node1 {
+		pol.ChannelFlags |= lnwire.ChanUpdateDirection
+	}
+	if p.dflags&1 != 0 {
+		pol.ChannelFlags |= lnwire.ChanUpdateDisabled
+	}
+
+	return pol
+}
+
+// isDis is the ground truth for the "enabled" clause: what the ORIGINAL graph
+// policy reports.
+func (p *c19Pol) isDis() bool { return p.orig(0, true).IsDisabled() }
+
+// hasMax: v2 updates always carry htlc_maximum_msat.
+func (p *c19Pol) hasMax() bool { return p.ver == 2 || p.max != 0 }
+
+func (c *c19) setDisabled(p *c19Pol, on bool) {
+	switch {
+	case !on:
+		p.dflags = 0
+	case p.ver == 2:
+		p.dflags = uint8(c.pick(1, 2, 3))
+	default:
+		p.dflags = 1
+	}
 }
 
 type c19Chan struct {
@@ -171,30 +231,23 @@ func (g *c19Graph) ForEachNodeDirectedChannel(_ context.Context,
 			Capacity:     btcutil.Amount(ch.capSat),
 			OutPolicySet: own != nil,
 		}
+		// Both policies go through the real conversion
+		// models.ChannelEdgePolicy -> models.NewCachedPolicy, the way the
+		// graph cache and the KV store build a DirectedChannel.
 		if own != nil {
-			dc.InboundFee = lnwire.Fee{
-				BaseFee: own.ib, FeeRate: own.ir,
-			}
+			ownCached := models.NewCachedPolicy(own.orig(ch.id, isNode1))
+			ownCached.InboundFee.WhenSome(func(fee lnwire.Fee) {
+				dc.InboundFee = fee
+			})
 		}
 		if other != nil {
-			dc.InPolicy = &models.CachedEdgePolicy{
-				ChannelID:                 ch.id,
-				HasMaxHTLC:                other.max != 0,
-				IsNode1:                   !isNode1,
-				IsDisabled:                other.dis,
-				TimeLockDelta:             other.delta,
-				MinHTLC:                   lnwire.MilliSatoshi(other.min),
-				MaxHTLC:                   lnwire.MilliSatoshi(other.max),
-				FeeBaseMSat:               lnwire.MilliSatoshi(other.base),
-				FeeProportionalMillionths: lnwire.MilliSatoshi(other.rate),
-				InboundFee: fn.Some(lnwire.Fee{
-					BaseFee: other.ib, FeeRate: other.ir,
-				}),
-				ToNodePubKey: func() route.Vertex {
-					return node
-				},
-				ToNodeFeatures: lnwire.EmptyFeatureVector(),
+			dc.InPolicy = models.NewCachedPolicy(
+				other.orig(ch.id, !isNode1),
+			)
+			dc.InPolicy.ToNodePubKey = func() route.Vertex {
+				return node
 			}
+			dc.InPolicy.ToNodeFeatures = lnwire.EmptyFeatureVector()
 		}
 		if err := cb(dc); err != nil {
 			return err
@@ -249,6 +302,9 @@ type c19 struct {
 	// limits and mostly non-zero inbound fees, so that the DB's mapping of
 	// policies and inbound fees onto directed channels is visible in the fees.
 	dbBias bool
+
+	// v1Only: the test graph DB (KV store) only supports gossip v1.
+	v1Only bool
 }
 
 func (c *c19) pf(format string, a ...interface{}) {
@@ -278,12 +334,20 @@ func (c *c19) genPol(amt uint64) *c19Pol {
 	}
 	p.delta = uint16(c.pick(0, 1, 6, 18, 40, 40, 40, 80, 144, 144, 2016,
 		uint64(r.Intn(300))))
+	if c.chance(0.4) && !c.dbBias && !c.v1Only {
+		p.ver = 2
+	}
+	defer func() {
+		if p.ver == 2 && p.max == 0 && c.chance(0.8) {
+			p.max = 1 << 40
+		}
+	}()
 	if loose {
-		p.dis = c.chance(0.04)
+		c.setDisabled(p, c.chance(0.04))
 		p.min = c.pick(0, 0, 1, amt)
 		p.max = c.pick(0, 1<<40, 1<<40, 2*amt+100000)
 	} else {
-		p.dis = c.chance(0.12)
+		c.setDisabled(p, c.chance(0.12))
 		p.min = c.pick(0, 0, 0, 1, 1, 1000, c19Sub(amt, 1), amt, amt+1,
 			amt+uint64(r.Intn(2000)))
 		p.max = c.pick(0, 0, 0, amt, amt+1, c19Sub(amt, 1), 2*amt+1,
@@ -578,6 +642,18 @@ func (c *c19) genTieCase() *c19Case {
 	return cs
 }
 
+// c19PolVer prints gossip version and raw disable bits of a policy.
+func c19PolVer(p *c19Pol) string {
+	if p == nil {
+		return "-"
+	}
+	v := p.ver
+	if v == 0 {
+		v = 1
+	}
+	return fmt.Sprintf("%d:%d", v, p.dflags)
+}
+
 func c19PolStr(p *c19Pol) string {
 	if p == nil {
 		return "-"
@@ -589,7 +665,7 @@ func c19PolStr(p *c19Pol) string {
 		return 0
 	}
 	return fmt.Sprintf("%d,%d,%d,%d,%d,%d,%d,%d,%d", p.min, p.max,
-		b2i(p.max != 0), p.base, p.rate, p.delta, b2i(p.dis), p.ib, p.ir)
+		b2i(p.hasMax()), p.base, p.rate, p.delta, b2i(p.isDis()), p.ib, p.ir)
 }
 
 func c19List[T any](xs []T, f func(T) string) string {
@@ -659,8 +735,9 @@ func (c *c19) run(cs *c19Case, g Graph, sess GraphSessionFactory,
 		if ch.hint {
 			continue
 		}
-		c.pf("chan %d %d %d cap=%d p1=%s p2=%s hint=0", ch.id, ch.a, ch.b,
-			ch.capSat, c19PolStr(ch.p1), c19PolStr(ch.p2))
+		c.pf("chan %d %d %d cap=%d p1=%s p2=%s hint=0 pv1=%s pv2=%s", ch.id,
+			ch.a, ch.b, ch.capSat, c19PolStr(ch.p1), c19PolStr(ch.p2),
+			c19PolVer(ch.p1), c19PolVer(ch.p2))
 	}
 	var (
 		storedLog []c19Stored
@@ -677,13 +754,18 @@ func (c *c19) run(cs *c19Case, g Graph, sess GraphSessionFactory,
 		if ch.p1 == nil {
 			continue
 		}
+		// hop hints are not gossip policies.
+		ch.p1.ver = 0
+		if ch.p1.dflags != 0 {
+			ch.p1.dflags = 1
+		}
 		c.pf("chan %d %d %d cap=%d p1=%s p2=- hint=1", ch.id, ch.a, ch.b,
 			int64(fakeHopHintCapacity), c19PolStr(ch.p1))
 		to := keys[ch.b]
 		pol := &models.CachedEdgePolicy{
 			ChannelID:                 ch.id,
 			HasMaxHTLC:                ch.p1.max != 0,
-			IsDisabled:                ch.p1.dis,
+			IsDisabled:                ch.p1.dflags != 0,
 			TimeLockDelta:             ch.p1.delta,
 			MinHTLC:                   lnwire.MilliSatoshi(ch.p1.min),
 			MaxHTLC:                   lnwire.MilliSatoshi(ch.p1.max),
@@ -1174,7 +1256,7 @@ func (c *c19) derive(cs *c19Case, rt *route.Route, chanMut bool) *c19Case {
 		}
 	case 12:
 		if p := polOf(d, i); p != nil {
-			p.dis = true
+			c.setDisabled(p, true)
 		}
 	case 13:
 		// make the forwarding node's inbound fee negative enough to
@@ -1221,7 +1303,7 @@ func (c *c19) derive(cs *c19Case, rt *route.Route, chanMut bool) *c19Case {
 					q := *p
 					q.delta += uint16(1 + r.Intn(50))
 					q.base = c19Sub(q.base, uint64(r.Intn(2)))
-					q.dis = c.chance(0.3)
+					c.setDisabled(&q, c.chance(0.3))
 					if nc.hint {
 						q.ib, q.ir = 0, 0
 					}
@@ -1293,7 +1375,7 @@ func c19TestPol(p *c19Pol) *testChannelPolicy {
 		FeeRate:            lnwire.MilliSatoshi(p.rate),
 		InboundFeeBaseMsat: int64(p.ib),
 		InboundFeeRate:     int64(p.ir),
-		Disabled:           p.dis,
+		Disabled:           p.dflags != 0,
 	}
 }
 
@@ -1384,6 +1466,7 @@ func TestVerifC19(t *testing.T) {
 	// ---- graphs in the real graph DB (with and without graph cache) --------
 	for k := 0; k < nDB; k++ {
 		c.dbBias = k%4 != 0
+		c.v1Only = true
 		cs := c.genCase()
 		c.dbBias = false
 		cs.self = cs.src
@@ -1464,5 +1547,6 @@ func TestVerifC19(t *testing.T) {
 		})
 	}
 
+	c.v1Only = false
 	t.Logf("C19: %d cases, %d routes", c.n, c.found)
 }
